@@ -2240,9 +2240,10 @@ impl<'store> FindTextSelectionsIter<'store> {
                         self.textseliters
                             .push((self.resource.range(0, reftextselection.end() + 1), true));
                     } else {
+                        //anything that overlaps or embeds the reference ends after its begin
                         self.textseliters.push((
                             self.resource
-                                .range(reftextselection.end(), self.resource.textlen() + 1),
+                                .range(reftextselection.begin(), self.resource.textlen() + 1),
                             false, //search backwards!!
                         ));
                     }
